@@ -51,6 +51,9 @@ func GenC20() *rapid.Generator[C20Case] {
 		c := C20Case{Genome: gg.Draw(t, "genome"), Trials: rapid.IntRange(1, 5).Draw(t, "trials"), Generations: rapid.IntRange(1, 8).Draw(t, "generations"),
 			Observer: rapid.IntRange(0, 3).Draw(t, "observer") != 0, PreSized: rapid.Bool().Draw(t, "presized"), Parallel: rapid.IntRange(0, 3).Draw(t, "parallel") == 0,
 			PopSize: rapid.IntRange(3, 8).Draw(t, "pop size"), Seed: int64(rapid.IntRange(0, 1<<30).Draw(t, "seed"))}
+		if rapid.IntRange(0, 14).Draw(t, "zero trials") == 7 {
+			c.Trials = 0 // nothing at all is to be run
+		}
 		if rapid.IntRange(0, 11).Draw(t, "zero generations") == 5 {
 			c.Generations = 0 // the configured maximum is "no generation at all": trials are started and finished, nothing is evaluated
 		}
@@ -58,7 +61,7 @@ func GenC20() *rapid.Generator[C20Case] {
 		if rapid.IntRange(0, 3).Draw(t, "run before") == 0 {
 			c.Prior = true
 			c.PriorSolvedAt = rapid.IntRange(-1, imax(c.Generations-1, -1)).Draw(t, "prior solved at")
-			c.PriorFaultTrial = rapid.IntRange(-1, c.Trials-1).Draw(t, "prior fault trial")
+			c.PriorFaultTrial = rapid.IntRange(-1, imax(c.Trials-1, -1)).Draw(t, "prior fault trial")
 		}
 		if c.PreSized && rapid.IntRange(0, 2).Draw(t, "longer record") == 0 {
 			c.ExtraSlots = rapid.IntRange(1, 2).Draw(t, "extra slots")
@@ -71,7 +74,7 @@ func GenC20() *rapid.Generator[C20Case] {
 			c.SolvedAt = append(c.SolvedAt, s)
 		}
 		c.Fault = rapid.SampledFrom([]string{"none", "none", "error", "cancel", "deadline"}).Draw(t, "fault")
-		if c.Generations == 0 {
+		if c.Generations == 0 || c.Trials == 0 {
 			c.Fault = "none"
 		}
 		if c.Fault == "error" {
@@ -368,6 +371,9 @@ func CheckC20(c C20Case, rec *Rec) error {
 	rec.Class("fault:" + c.Fault)
 	if c.Generations == 0 {
 		rec.Class("zero generations configured")
+	}
+	if c.Trials == 0 {
+		rec.Class("zero trials configured")
 	}
 	if c.Observer {
 		rec.Class("with observer")
